@@ -101,13 +101,13 @@ theorem extrap2d_planar_exact (a b c : Rat) (M N pr pc wt wb wl wr : Nat) (hM : 
 /-- planar data under EVERY combination of windows ≥ 1 and sizes ≥ 1 (global coordinates: the data sit at
 rows `pr …`, columns `pc …`): along an axis whose effective window `min w n` is a single point the nearest
 edge value is repeated (`clampIdx` = the edge position there, the identity elsewhere), along the other
-axis the plane is continued; the corners are the same expression in both coordinates -/
+axis the plane is continued; the corners are the same expression in both coordinates:
+`planarClamped … [k][l] = a + b·clampIdx pr M wt wb k + c·clampIdx pc N wl wr l` -/
 theorem extrap2d_planar_clamped (a b c : Rat) (M N pr pc wt wb wl wr : Nat) (hM : 1 ≤ M) (hN : 1 ≤ N)
     (hpr : 1 ≤ pr) (hpc : 1 ≤ pc) (hwt : 1 ≤ wt) (hwb : 1 ≤ wb) (hwl : 1 ≤ wl) (hwr : 1 ≤ wr) :
     extrapolate2d ((List.range M).map fun i => (List.range N).map fun j =>
         a + b * (((pr + i : Nat) : Int) : Rat) + c * (((pc + j : Nat) : Int) : Rat)) pr pc wt wb wl wr =
-      (List.range (M + 2 * pr)).map fun k => (List.range (N + 2 * pc)).map fun l =>
-        a + b * (((clampIdx pr M wt wb k : Nat) : Int) : Rat) + c * (((clampIdx pc N wl wr l : Nat) : Int) : Rat) :=
+      planarClamped a b c M N pr pc wt wb wl wr :=
   have _ := hpr; have _ := hpc
   extrapolate2d_planar_clamped a b c M N pr pc wt wb wl wr hM hN hwt hwb hwl hwr
 theorem clampIdx_id (pad n wl wr k : Nat) (hn : 2 ≤ n) (hwl : 2 ≤ wl) (hwr : 2 ≤ wr) : clampIdx pad n wl wr k = k :=
